@@ -313,6 +313,7 @@ class Lower:
         self.loops = {}        # alias -> count
         self.fninfo = {}       # alias -> dict
         self.globals = {}
+        self.global_order = []
         self.externs = {}
 
     # ---------- records ----------
@@ -532,6 +533,17 @@ class Lower:
         fn = getattr(self, 'cur_fn', None)
         recs = []
         if fn is not None:
+            # function-local `using X = ...;`
+            stack = [fn]
+            while stack:
+                x = stack.pop()
+                if x.get('kind') in ('TypeAliasDecl', 'TypedefDecl') and x.get('name') == name:
+                    d = dq(x['type'])
+                    if d != t:
+                        return d
+                for c in x.get('inner', []) or []:
+                    if isinstance(c, dict) and c.get('kind') not in ('LambdaExpr',):
+                        stack.append(c)
             r = self.tu.rec_of_member.get(fn['id'])
             if r is None and fn.get('parentDeclContextId') in self.tu.byid:
                 r = self.tu.byid[fn['parentDeclContextId']]
@@ -719,6 +731,22 @@ class Lower:
                 if rt != 'auto' and e.get('valueCategory') == 'lvalue':
                     et += ' &'
                 rt = et
+        # member-typedef sugar (Rec::reference, Rec::self_type, ...) hides whether the function returns a reference
+        saved_fn = getattr(self, 'cur_fn', None)
+        self.cur_fn = fn
+        try:
+            for _ in range(6):
+                core = strip_cv(rt)
+                mm = re.fullmatch(r'(.*?)( ?[&*]+)?', core)
+                base, suf = mm.group(1), mm.group(2) or ''
+                if suf.strip() or not re.fullmatch(r'(?:typename )?(?:.*::)?\w+', base) or base in BUILTIN:
+                    break
+                al = self.resolve_alias(base)
+                if al is None:
+                    break
+                rt = al + suf
+        finally:
+            self.cur_fn = saved_fn
         m0 = re.fullmatch(r'(?:typename )?(.*)::(\w+)( ?[&*]*)', strip_cv(rt))
         if m0:
             r0 = self.find_record(m0.group(1))
@@ -771,7 +799,13 @@ class Lower:
 
     def is_opaque(self, fn):
         q = self.tu.qualname(fn)
-        return any(re.fullmatch(rx, q) for rx in self.opaque)
+        for rx in self.opaque:
+            if callable(rx):
+                if rx(fn, q, self):
+                    return True
+            elif re.fullmatch(rx, q):
+                return True
+        return False
 
     def want(self, fn):
         d = self.tu.definition(fn)
@@ -1033,7 +1067,9 @@ class Lower:
         if True:
             if not inner:
                 return I + 'return;'
-            if self.cur_ret_ref:
+            if self.cur_ret_ref and re.search(r'\[\d+\]$', strip_cv(dq(inner[0]['type']))):
+                e = '(&%s[0])' % self.lv(inner[0])      # reference to array -> pointer to its first element
+            elif self.cur_ret_ref:
                 e = self.addr(inner[0])
             elif self.cur_ret_ct == 'void':
                 e = None
@@ -1159,6 +1195,8 @@ class Lower:
             cc = self.rv(c)
             out = self.flush_pre(ind)
             return '\n'.join(out + [I + 'if (%s)\n%s\n%selse\n%s' % (cc, self.block(a, ind), I, self.block(b, ind))])
+        if self.is_message_type(dq(n0.get('type', {'qualType': ''}))):
+            return I + '/* exception message construction dropped */;'
         s = self.rv(n, discard=True)
         return '\n'.join(self.flush_pre(ind) + [I + s + ';'] + self.post_exc(ind))
 
@@ -1202,9 +1240,17 @@ class Lower:
             return ' XV_LOOP_%s_%d' % (self.cur_nm, self.loopk)
         return ''
 
+    MSG_TYPES = ('basic_ostringstream', 'basic_ostream', 'basic_stringstream', 'ostringstream')
+
+    def is_message_type(self, t):
+        return any(k in t for k in self.MSG_TYPES)
+
     def vardecl(self, v, ind):
         I = '  ' * ind
         vt = dq(v['type'])
+        if self.is_message_type(vt):
+            self.std.used.add('exception message text dropped (ostringstream)')
+            return [I + '/* exception message construction dropped */']
         name = v['name']
         init = [c for c in v.get('inner', []) if 'kind' in c and c['kind'] not in ('FullComment',) and 'valueCategory' in c or c.get('kind') in ('InitListExpr', 'CXXConstructExpr', 'ExprWithCleanups')]
         st = ''
@@ -1359,7 +1405,9 @@ class Lower:
         init = [c for c in d.get('inner', []) if 'kind' in c and ('valueCategory' in c or c['kind'] == 'InitListExpr')]
         q = self.tu.qualname(decl) if decl.get('_p') else decl.get('name')
         par = decl.get('_p') or {}
-        if par.get('kind') in REC_KINDS:
+        if par.get('kind') in REC_KINDS and not self.tu.in_repo(par):
+            nm = 'g_' + san(self.tu.qualname(par)) + '_' + decl['name']          # static member of a library class (e.g. std::string::npos)
+        elif par.get('kind') in REC_KINDS:
             nm = 'g_' + self.struct_for(par)[2:] + '_' + decl['name']
         else:
             nm = 'g_' + san((q + '_' if q else '') + decl['name'])
@@ -1375,6 +1423,7 @@ class Lower:
         else:
             text = 'static const %s = %s;' % (self.cdecl(vt, nm), self.rv(init[0]))
         self.globals[gid] = (nm, text)
+        self.global_order.append(gid)      # completion order: a constant defined through another one comes after it
         return nm
 
     def lv(self, n):
@@ -1488,7 +1537,9 @@ class Lower:
                 return self.rv(e) if e.get('valueCategory') == 'prvalue' else self.lv(e)
             if ck in self.INT_CASTS:
                 return '((%s)%s)' % (self.ctype(dq(n['type'])), self.rv(e))
-            if ck in ('BitCast', 'NullToPointer', 'IntegralToPointer', 'PointerToIntegral'):
+            if ck == 'NullToPointer':
+                return '((void*)0)'
+            if ck in ('BitCast', 'IntegralToPointer', 'PointerToIntegral'):
                 return '((%s)%s)' % (self.ctype(dq(n['type'])), self.rv(e))
             if ck == 'ArrayToPointerDecay':
                 if e.get('kind') == 'StringLiteral':
@@ -1496,6 +1547,8 @@ class Lower:
                 e1 = e
                 while e1.get('kind') in ('ParenExpr',) or (e1.get('kind') == 'ImplicitCastExpr' and e1.get('castKind') == 'NoOp'):
                     e1 = e1['inner'][0]
+                if e1.get('kind') in ('CXXMemberCallExpr', 'CallExpr', 'CXXOperatorCallExpr'):
+                    return self.call(e1)       # function returning a reference to an array: lowered to a pointer to its first element
                 if e1.get('kind') == 'DeclRefExpr' and e1['referencedDecl']['kind'] in ('ParmVarDecl', 'VarDecl'):
                     d = self.tu.byid.get(e1['referencedDecl']['id'], e1['referencedDecl'])
                     if re.search(r'\(&&?\)\s*\[', dq(d.get('type', {'qualType': ''}))):
@@ -1982,7 +2035,8 @@ class Lower:
             out.append(self.structs[s])
             out.append('')
         out.append(after_structs)
-        for gid, (nm, text) in self.globals.items():
+        for gid in self.global_order:
+            nm, text = self.globals[gid]
             if text:
                 out.append(text)
         out.append('')
